@@ -13,7 +13,8 @@ func init() {
 		Rule: "three kinds of cases on the real app. index%3==0: emission configurations (as C02) - the Mint event's amount must equal the sum of bank coinbase events and the supply delta of that BeginBlock. " +
 			"index%3==1: sub-distributor configurations with inflows (as C03/C04) - every Distribution/DistributionBurn event must equal the exact model's assignment for that (sub-distributor, destination) and the events of a sub-distributor plus the parts kept on MAIN must add up to its inflow (tolerance 1e-9). " +
 			"index%3==2: vesting histories (as C05) - WithdrawAvailable events per pool must equal the growth of that pool's withdrawn counter, none for pools that paid nothing, their sum the coins paid; NewVestingAccountFromVestingPool.amount must equal the growth of sent. " +
-			"Non-trivial: mint>0 in >=3 blocks / >=3 distribution events / a withdrawal covering >=2 pools (with an unpaid pool listed between paid ones counted separately). Distinct by configuration/history hash.",
+			"Non-trivial: mint>0 in >=3 blocks / >=3 distribution events / a withdrawal covering >=2 pools (with an unpaid pool listed between paid ones counted separately). Distinct by configuration/history hash." +
+			" Every 8th case runs C14's fault-injection scenario with the event check first: a failed sweep or payout must not be reported as moved coins.",
 		Cases:         func(t string) int { return tierN(t, 450, 9000) },
 		MinNontrivial: func(t string) int { return tierN(t, 120, 2500) },
 		Run:           runC18,
